@@ -105,6 +105,17 @@ def run (S : Sem) : List Step → Bytes
   | s :: rest => interp S s ++ run S rest
 end
 
+mutual
+/-- what a statement writes to the side buffer (`.side` steps; branches by their condition) -/
+def sideI (S : Sem) : Step → Bytes
+  | .side m a => wr m (S.env a)
+  | .ite c t e => if S.cond c then sideOf S t else sideOf S e
+  | _ => []
+def sideOf (S : Sem) : List Step → Bytes
+  | [] => []
+  | s :: rest => sideI S s ++ sideOf S rest
+end
+
 theorem run_append (S : Sem) (a b : List Step) : run S (a ++ b) = run S a ++ run S b := by
   induction a with
   | nil => simp [run]
